@@ -309,3 +309,78 @@ func QueryRespContains(frame []byte, want string) (bool, string) {
 	}
 	return false, "value not found"
 }
+
+// Decoded is one command of a byte stream, read the way the protocol defines.
+type Decoded struct {
+	Kind       string // "" = a type number no command kind is defined for
+	HasRequest bool   // the request message that kind expects is present
+	Voter      bool
+	User, Pass string
+	Authorized bool // the credentials carried are authorised for what the command requires
+	Mutating   bool // a complete, authorised command whose purpose is to change database or configuration
+}
+
+var mutatingKinds = map[string]bool{"execute": true, "request": true, "load": true, "join": true, "remove": true}
+
+// DecodeStream reads the bytes a peer sends after the cluster mux header byte
+// exactly as the protocol defines them - 8-byte little-endian length, that
+// many bytes of protobuf Command, repeat - whatever generator produced them,
+// and judges every complete command against the credential model. It stops
+// where a node has to stop: at an incomplete frame or at bytes that are not a
+// Command. This is what decides whether a stream is entitled to change state:
+// a mutated or random stream that happens to be a complete command carrying
+// credentials authorised for that command is a legitimate request.
+func DecodeStream(afterHeader []byte, creds Creds) []Decoded {
+	var out []Decoded
+	b := afterHeader
+	for len(b) >= 8 {
+		sz := binary.LittleEndian.Uint64(b)
+		if sz > uint64(len(b)-8) {
+			break
+		}
+		c := &cproto.Command{}
+		if err := pb.Unmarshal(b[8:8+sz], c); err != nil {
+			break // the node closes the connection here
+		}
+		b = b[8+sz:]
+		d := Decoded{User: c.GetCredentials().GetUsername(), Pass: c.GetCredentials().GetPassword()}
+		for k, t := range kindType {
+			if t == c.Type {
+				d.Kind = k
+			}
+		}
+		switch d.Kind {
+		case "meta":
+			d.HasRequest = true
+		case "execute":
+			d.HasRequest = c.GetExecuteRequest() != nil
+		case "query":
+			d.HasRequest = c.GetQueryRequest() != nil
+		case "request":
+			d.HasRequest = c.GetExecuteQueryRequest() != nil
+		case "backup", "backup_stream":
+			d.HasRequest = c.GetBackupRequest() != nil
+		case "load":
+			d.HasRequest = c.GetLoadRequest() != nil
+		case "load_chunk":
+			d.HasRequest = c.GetLoadChunkRequest() != nil
+		case "remove":
+			d.HasRequest = c.GetRemoveNodeRequest() != nil
+		case "notify":
+			d.HasRequest = c.GetNotifyRequest() != nil
+		case "join":
+			d.HasRequest = c.GetJoinRequest() != nil
+			d.Voter = c.GetJoinRequest().GetVoter()
+		case "stepdown":
+			d.HasRequest = c.GetStepdownRequest() != nil
+		case "hwm":
+			d.HasRequest = c.GetHighwaterMarkUpdateRequest() != nil
+		}
+		if d.Kind != "" {
+			d.Authorized = creds.Authorized(d.User, d.Pass, PeerNeed(d.Kind, d.Voter))
+		}
+		d.Mutating = d.HasRequest && d.Authorized && mutatingKinds[d.Kind]
+		out = append(out, d)
+	}
+	return out
+}
